@@ -40,7 +40,12 @@ def gen(rng, tier, index):
             cfg["sched"]["k"] = rng.choice([1, 2, 3])
             cfg["sched"]["horizon"] = rng.choice([1000, 5000, 20000])
         cfg["max_steps"] = 1_500_000
-    ops = netgen.make_ops(rng, cfg["version"], rng.randint(15, 60 if tier == "thorough" else 45), WEIGHTS, nodes=(2, 4), scenario=0.4)
+    weights = dict(WEIGHTS)
+    if rng.random() < 0.3:
+        # persistence on (scheduled saves come and go while nodes sleep): saving must not disturb the hold-back state
+        cfg["persistence"] = rng.choice(["pickle", "pickle", "json"])
+        weights["advance"] = 8
+    ops = netgen.make_ops(rng, cfg["version"], rng.randint(15, 60 if tier == "thorough" else 45), weights, nodes=(2, 4), scenario=0.4)
     return {"cfg": cfg, "ops": netgen.chunkify(rng, ops)}
 
 
